@@ -3,7 +3,9 @@
    (the parser's thread-local counter), for every token list, fuel and behaviour of syn's parsers. *)
 From ASModel Require Import Base Tokens Report Ast IR Expand Nodes Parser FrontEnd.
 From ASModel Require Import Print.
-From ASProofs Require Import PatInd NodesP IdsP BalanceP.
+From ASProofs Require Import PatInd NodesP IdsP BalanceP HolesP.
+Local Open Scope string_scope.
+Local Open Scope list_scope.
 
 (* one constant per node, in post-order: the ids defined are exactly the ids of the
    tree (a `..` inside a slice is a flag of its parent, not a node) *)
@@ -79,3 +81,45 @@ Theorem c14_expansion_well_bracketed : forall j value p,
   balanced value -> pat_toks_ok p -> balanced (expand_top j value p).
 Proof. exact expansion_well_bracketed. Qed.
 Print Assumptions c14_expansion_well_bracketed.
+
+(* ---- another necessary part: the expression under test is always spliced as a complete operand ------
+   It is an arbitrary Rust expression (a struct literal, a binary or cast expression, a range, a closure ...).
+   Every template of Print.v splices it immediately between an opening delimiter or argument comma and a closing
+   delimiter or argument comma (so no operator of the template can capture part of it, and no position that
+   forbids struct literals is used: findings F13, F15), and the holes that are not delimited (the prefix / postfix
+   wrappers of field operations) never receive it bare. *)
+Theorem c14_delimiting_template_means_between_delimiters : forall sp t args k,
+  tpl_delimits t k = true ->
+  forall ws1 w ws2, split_on " " t = ws1 ++ w :: ws2 -> hole_word k w = true ->
+  exists pre a b post,
+    tpl sp t args = pre ++ [a] ++ nth k args [] ++ [b] ++ post /\ open_tok sp a /\ close_tok sp b.
+Proof. exact tpl_delimits_tokens. Qed.
+Print Assumptions c14_delimiting_template_means_between_delimiters.
+
+Theorem c14_every_statement_template_delimits_the_value : forall s st e,
+  stmt_site s = Some (st, e) -> site_ok st (pp_vexpr e) (stmt_printed s).
+Proof. exact stmt_site_ok. Qed.
+Print Assumptions c14_every_statement_template_delimits_the_value.
+
+Theorem c14_map_lookup_is_an_argument_of_its_statement : forall sp e k body missing,
+  pp_stmt (SMapGet sp e k body missing) =
+  tpl sp "match $0 { Some ( __map_value ) => { $1 } None => { $2 } }" [mapget_get sp e k; pp_stmt body; pp_push missing].
+Proof. exact mapget_outer. Qed.
+Print Assumptions c14_map_lookup_is_an_argument_of_its_statement.
+
+Theorem c14_every_report_argument_delimits_the_value : forall sp a st e,
+  actual_site sp a = Some (st, e) -> site_ok st (pp_vexpr e) (pp_actual a).
+Proof. exact actual_site_ok. Qed.
+Print Assumptions c14_every_report_argument_delimits_the_value.
+
+Theorem c14_field_access_delimits_the_value : forall x f,
+  site_ok (SCall, "( $0 ) . $1", [pp_vexpr x; pp_field_name f], 0) (pp_vexpr x) (pp_vexpr (VField x f)).
+Proof. exact field_site_ok. Qed.
+Print Assumptions c14_field_access_delimits_the_value.
+
+(* every value any statement of the expansion is handed is the asserted expression itself (which the statement's
+   template delimits) or an expression in which it occurs only as the operand of `( e ) . field` *)
+Theorem c14_asserted_expression_is_never_spliced_bare : forall j p toks,
+  Forall value_ok (stmt_values (expand j p (VRoot toks))).
+Proof. exact asserted_expression_values. Qed.
+Print Assumptions c14_asserted_expression_is_never_spliced_bare.
